@@ -218,6 +218,52 @@ def oracle_f(toks, line):
     return None
 
 
+def _special(tok):
+    return {"nan": float("nan"), "inf": float("inf"), "-inf": float("-inf"), "-0": -0.0}.get(tok, None) if tok in ("nan", "inf", "-inf", "-0") else int(tok)
+
+
+def _show_special(ty, x):
+    import math
+    if x != x:
+        return f"{ty} nan"
+    if x == 0:
+        return f"{ty} {'-0' if math.copysign(1.0, x) < 0 else '0'}"
+    if math.isinf(x):
+        return f"{ty} {'-inf' if x < 0 else 'inf'}"
+    return _show_f(ty, x)
+
+
+def oracle_fs(toks, line):
+    """special values: CPython's IEEE-754 comparisons and negation are the ground truth"""
+    if line in ("badinput", "badop"):
+        return None
+    if toks[0] == "fcmp":
+        a, b = _special(toks[4]), _special(toks[5])
+        r = {"==": a == b, "!=": a != b, "<": a < b, "<=": a <= b, ">": a > b, ">=": a >= b}[toks[1]]
+        return line == f"ok {1 if r else 0}"
+    if toks[0] == "fnegs":
+        ty = toks[1].split(":")[1]
+        return line == "ok " + _show_special("f8" if ty == "double" else "f4", -float(_special(toks[2])))
+    return None
+
+
+def fops_special(rng, thorough):
+    ops = []
+    sv = ["nan", "inf", "-inf", "0", "-0", "1", "-1", "7"]
+    iv = ["0", "1", "-1", "7"]
+    for op in ("==", "!=", "<", "<=", ">", ">="):
+        for lw, rw in WRAPS:
+            for lt, rt in (("float", "float"), ("double", "double"), ("float", "double"), ("double", "int"), ("int", "float")):
+                pairs = [(a, b) for a in (sv if lt != "int" else iv) for b in (sv if rt != "int" else iv)]
+                for a, b in (pairs if thorough else rng.sample(pairs, 6) + [p for p in pairs if "nan" in p][:3]):
+                    ops.append(f"fcmp {op} {lw}:{lt} {rw}:{rt} {a} {b}")
+    for lw in ("tainted", "tvol"):
+        for ty in ("float", "double"):
+            for a in sv:
+                ops.append(f"fnegs {lw}:{ty} {a}")
+    return list(dict.fromkeys(ops))
+
+
 def fops(rng, thorough):
     P = {"float": 24, "double": 53}
     def fv(ty):
@@ -326,7 +372,10 @@ def run(chk):
     else:
         fo = fops(rng, thorough)
         core.differential(chk, fo, fbin_, oracle_f, label="floating-point operator evaluations")
-        chk.cov["input_distribution_float"] = {"fbin": sum(o.startswith("fbin") for o in fo), "fincdec": sum(o.startswith("fincdec") for o in fo), "fneg": sum(o.startswith("fneg") for o in fo)}
+        fs = fops_special(rng, thorough)
+        core.differential(chk, fs, fbin_, oracle_fs, label="floating-point special values (comparisons, unary minus)")
+        fo = fo + fs
+        chk.cov["input_distribution_float"] = {"fbin": sum(o.startswith("fbin") for o in fo), "fincdec": sum(o.startswith("fincdec") for o in fo), "fneg": sum(o.startswith("fneg ") for o in fo), "fcmp": sum(o.startswith("fcmp") for o in fo), "fnegs": sum(o.startswith("fnegs") for o in fo)}
     res = core.differential(chk, ops, binp, oracle, label="operator evaluations")
     nblk = sum(int(a.split(" n=")[1].split()[0]) for o, a in zip(ops, res["impl"]) if o.startswith("binblk") and " n=" in a)
     chk.cov["evaluations"] += nblk
@@ -341,15 +390,15 @@ def run(chk):
                        "floating-point operands (float, double, mixed with int / long long): + - * unary minus and pre/post ++ -- on all wrapper combinations; only defined plain expressions are evaluated (definedness computed in 128-bit arithmetic); result TYPES are asserted at compile time against decltype of the plain expression "
                        "for every instantiated combination; oracle = the plain C++ expression in the same harness + an independent Python rendering for the update semantics")
     chk.add_samples([{"op": o, "impl": a, "model": b} for o, a, b in list(zip(ops, res["impl"], res["model"]))[::max(1, len(ops) // 6)]])
-    chk.cov["trusted_base"] += ["C16: floating-point operands: + - * unary minus ++ -- on float/double (also mixed with int / long long) in engine fops, values as exact dyadic rationals, IEEE round-to-nearest-even, CPython binary64 arithmetic as ground truth; floating-point division, comparisons and compound assignment are not exercised; `tainted_volatile & tainted_volatile`, compound assignment on tainted<T> for T narrower than int and post-inc/dec on tainted_volatile do not compile ('nc') and are outside the property ('that compiles')"]
+    chk.cov["trusted_base"] += ["C16: floating-point operands: + - * unary minus ++ -- on float/double (also mixed with int / long long) in engine fops, values as exact dyadic rationals, IEEE round-to-nearest-even, CPython binary64 arithmetic as ground truth; comparisons and unary minus also on the special values (NaN, infinities, signed zeros; ops fcmp / fnegs); floating-point division and compound assignment are not exercised; `tainted_volatile & tainted_volatile`, compound assignment on tainted<T> for T narrower than int and post-inc/dec on tainted_volatile do not compile ('nc') and are outside the property ('that compiles')"]
 
 
 def replay(chk, rp):
     binp, log = build()
     ops = [rp["op"]] if "op" in rp else [d["op"] for d in rp.get("disagreements", [])]
-    if ops and ops[0].split()[0] in ("fbin", "fincdec", "fneg"):
+    if ops and ops[0].split()[0] in ("fbin", "fincdec", "fneg", "fcmp", "fnegs"):
         fbin_, flog = core.build_harness("h_fops", ["h_fops.cpp"], core.SAN)
-        core.differential(chk, ops, fbin_, oracle_f, label="replay")
+        core.differential(chk, ops, fbin_, oracle_fs if ops[0].split()[0] in ("fcmp", "fnegs") else oracle_f, label="replay")
         return chk.finish()
     core.differential(chk, ops, binp, oracle, label="replay")
     return chk.finish()
